@@ -74,10 +74,10 @@ func getSwapOutSenderStates() States {
 				Event_OnTxOpenedMessage: State_SwapOutSender_AwaitTxConfirmation,
 				Event_ActionFailed:      State_SwapOutSender_SendPrivkey,
 				Event_OnInvalid_Message: State_SendCancel,
-				// fixme: We might want to timeout here, but we have to be
-				// careful not to loose our funds, maybe we want to set the
-				// time in the range of a CSV delta, or we just say: 10m and go!
-				// Event_OnTimeout:         State_SwapOutSender_SendPrivkey,
+				// We have paid at most the fee invoice here, so giving the
+				// peer our key costs us nothing more and lets it recover an
+				// opening transaction it may already have broadcast.
+				Event_OnTimeout: State_SwapOutSender_SendPrivkey,
 			},
 		},
 		State_SendCancel: {
